@@ -92,6 +92,8 @@ func VerifFileConcurrent() {
 	ver := 0          // number of completed commits
 	inCommit := false // a Commit call is in progress
 	marks := []uint8{v0, 0x77, 0}
+	oldRoot := s.m.root
+	var newRoot PageID
 	var wg sync.WaitGroup
 
 	ending := verifChoose(4) // commit / rollback / close / failing commit
@@ -103,6 +105,11 @@ func VerifFileConcurrent() {
 		p, perr := tx.Page(id0)
 		verifAssert(perr == nil, "page access")
 		verifAssert(p.SetBytes(verifBuf(0x77, 0x77, 0x77)) == nil, "overwrite")
+		np, nerr := tx.Alloc() // the transaction also grows the file and moves the root
+		verifAssert(nerr == nil, "alloc")
+		verifAssert(np.SetBytes(verifBuf(0x78, 0x78, 0x78)) == nil, "write the new page")
+		newRoot = np.ID()
+		tx.SetRoot(newRoot)
 		if verifBool("flush") {
 			verifAssert(tx.Flush() == nil, "Flush")
 		}
@@ -163,6 +170,16 @@ func VerifFileConcurrent() {
 				}
 			}
 			verifAssert(okv, "a reader sees the state of a commit that completed before it began (or of the commit in progress when it began), never uncommitted data")
+			// root, page bound and contents belong to one and the same commit
+			if seen == v0 {
+				verifAssert(rtx.Root() == oldRoot, "old contents come with the old root")
+			} else {
+				verifAssert(rtx.Root() == newRoot, "new contents come with the new root")
+				rootPage, rerr := rtx.Page(rtx.Root())
+				verifAssert(rerr == nil, "the committed root page is accessible")
+				rb, rberr := rootPage.Bytes()
+				verifAssert(rberr == nil && rb[1] == 0x78, "the committed root page is readable")
+			}
 			verifYield()
 			b2, _ := rp.Bytes()
 			verifAssert(b2[1] == seen && b2[0] == b[0] && b2[verifPageSize-1] == b[verifPageSize-1], "the view of a read transaction does not change while it is open")
@@ -176,6 +193,8 @@ func VerifFileConcurrent() {
 	// quiescent: committed state is the model
 	if ending == 0 {
 		s.m.pages[0].b0, s.m.pages[0].b1, s.m.pages[0].last = 0x77, 0x77, 0x77
+		s.m.pages = append(s.m.pages, refPage{id: newRoot, b0: 0x78, b1: 0x78, last: 0x78})
+		s.m.root = newRoot
 	}
 	s.checkCommitted("after all transactions ended")
 	verifAssert(f.Close() == nil, "File.Close returns")
@@ -292,5 +311,57 @@ func VerifShadow() {
 	checkView(rtx2, s.m, "second reader after the rollback")
 	verifAssert(rtx.Close() == nil && rtx2.Close() == nil, "readers close")
 	s.checkCommitted("after everything")
+	verifReach("end")
+}
+
+
+// VerifCloseConcurrent (C09): File.Close called while a write transaction is
+// open must wait for it without blocking read transactions the writer's owner
+// still starts; no deadlock; everything returns once the writer finishes.
+func VerifCloseConcurrent() {
+	cfg := &progCfg{maxPages: 64, concrete: true}
+	s := verifNewProg(cfg)
+	s.setup(2)
+	f := s.f
+	if p := verifParam("preempt", 0); p > 0 {
+		verifSched(p)
+	}
+	readonly := verifBool("readonly")
+	var tx *Tx
+	var err error
+	if readonly {
+		tx, err = f.BeginReadonly()
+	} else {
+		tx, err = f.Begin()
+	}
+	verifAssert(err == nil, "Begin succeeds")
+	closed := false
+	var wg sync.WaitGroup
+	wg.Add(1)
+	go func() {
+		defer wg.Done()
+		verifAssert(f.Close() == nil, "File.Close succeeds")
+		closed = true
+	}()
+	verifPoll() // Close runs until it has to wait for the open transaction
+	verifAssert(!closed, "Close waits for the open transaction")
+	if !readonly {
+		// the owner of the write transaction can still read through a second transaction
+		rtx, rerr := f.BeginReadonly()
+		verifAssert(rerr == nil, "BeginReadonly while Close waits for a write transaction does not block")
+		checkView(rtx, s.m, "reader while Close is waiting")
+		verifAssert(rtx.Close() == nil, "closing the reader")
+		p, _ := tx.Page(s.m.pages[0].id)
+		verifAssert(p.SetBytes(verifBuf(5, 5, 5)) == nil, "the open write transaction keeps working")
+		if verifBool("commit") {
+			verifAssert(tx.Commit() == nil, "Commit succeeds while Close is waiting")
+		} else {
+			verifAssert(tx.Rollback() == nil, "Rollback succeeds")
+		}
+	} else {
+		verifAssert(tx.Close() == nil, "closing the reader")
+	}
+	wg.Wait()
+	verifAssert(closed, "File.Close returned after the transaction ended")
 	verifReach("end")
 }
